@@ -164,6 +164,8 @@ def run(ctx):
                 if l.startswith("HIST "):
                     _, k, v = l.split()
                     hist[k] = int(v)
+            cc = sorted(set(o.split()[-1] for o in ops if o.startswith("tf conf") and len(o.split()) == 10))
+            ctx.corr["close_clears_out_probe"] = cc   # ["0"]: tree before fix F19, ["1"]: with it (model parameter Cfg.closeClears)
             ctx.corr.setdefault("runs", []).append({"label": label, "histogram": hist,
                                                      "oracle": [l for l in log.splitlines() if l.startswith("ORACLE-DONE")]})
             for o, i in list(zip(ops, impl))[1:6]:
